@@ -188,7 +188,7 @@ func opName(t map[string]any) string {
 		}
 		return op
 	case "UnaryExpression":
-		if fmt.Sprint(t["Operator"]) == "2" {
+		if o := strings.ToUpper(fmt.Sprint(t["Operator"])); o == "NOT" || o == "2" {
 			return "NOT"
 		}
 		return "NEG"
